@@ -217,7 +217,8 @@ def fingerprint(client):
             ms = []
             for name, params in methods:
                 ps = []
-                for pname, ptype in params:
+                for pd in params:
+                    pname, ptype = pd[0], pd[1]
                     r = ptype.resolve()
                     ps.append((pname, tuple(r.qname) if r.qname else None, ptype.optional(),
                                ptype.multi_occurrence()))
@@ -245,7 +246,8 @@ def fingerprint(client):
             for name, params in methods:
                 try:
                     args = {}
-                    for pname, ptype in params:
+                    for pd in params:
+                        pname, ptype = pd[0], pd[1]
                         r = ptype.resolve()
                         if r.builtin():
                             args[pname] = BUILTIN_SAMPLES.get(r.name, "v")
@@ -488,3 +490,195 @@ def location(rng, src, dst, style):
     if style == "dotrel" and not rel.startswith("."):
         rel = "./" + rel
     return rel
+
+
+# ---------------------------------------------------------------------------
+# layouts
+# ---------------------------------------------------------------------------
+
+class Layout(object):
+    def __init__(self, kind):
+        self.kind = kind              # "partition" | "graph"
+        self.docs = {}                # url -> bytes
+        self.root = None
+        self.single = None            # bytes of the equivalent single-document WSDL
+        self.in_store = set()
+        self.quirks = set()           # finding keys this layout is built to be able to show
+        self.desc = ""
+        self.shape = {}
+
+    def payload(self):
+        return {"kind": self.kind, "root": self.root, "desc": self.desc,
+                "in_store": sorted(self.in_store),
+                "docs": {u: d.decode("utf-8") for u, d in self.docs.items()},
+                "single": self.single.decode("utf-8") if self.single else None,
+                "quirks": sorted(self.quirks)}
+
+
+def layout_from_payload(p):
+    L = Layout(p["kind"])
+    L.root = p["root"]
+    L.desc = p.get("desc", "")
+    L.in_store = set(p["in_store"])
+    L.docs = {u: d.encode("utf-8") for u, d in p["docs"].items()}
+    L.single = p["single"].encode("utf-8") if p.get("single") else None
+    L.quirks = set(p.get("quirks", []))
+    return L
+
+
+# ---- small graphs: every graph on <= 3 documents ---------------------------
+
+G_KINDS = {("W", "W"): ["wimp"], ("W", "X"): ["wimp", "ximp", "xinc"], ("X", "X"): ["ximp", "xinc"],
+           ("X", "W"): []}
+
+
+def graph_specs(n):
+    """All (kinds, edges) on n documents: kinds[0] = 'W'; edges: dict (i, j) -> kind."""
+    import itertools
+    out = []
+    for kinds in itertools.product("WX", repeat=n - 1):
+        kinds = ("W",) + kinds
+        pairs = [(i, j) for i in range(n) for j in range(n) if G_KINDS[(kinds[i], kinds[j])]]
+        choices = [[None] + G_KINDS[(kinds[i], kinds[j])] for i, j in pairs]
+        for combo in itertools.product(*choices):
+            edges = {p: c for p, c in zip(pairs, combo) if c}
+            out.append((kinds, edges))
+    return out
+
+
+def graph_reachable(n, edges):
+    seen, todo = {0}, [0]
+    while todo:
+        i = todo.pop()
+        for (a, b) in edges:
+            if a == i and b not in seen:
+                seen.add(b)
+                todo.append(b)
+    return seen
+
+
+def w_cycle(kinds, edges):
+    """Is there a cycle through >= 2 WSDL documents."""
+    n = len(kinds)
+    adj = {i: [j for (a, j), k in edges.items() if a == i and kinds[j] == "W" and j != i] for i in range(n)
+           if kinds[i] == "W"}
+
+    def reach(a, b, seen):
+        for j in adj.get(a, []):
+            if j == b:
+                return True
+            if j not in seen:
+                seen.add(j)
+                if reach(j, b, seen):
+                    return True
+        return False
+    return any(reach(i, i, set()) for i in adj)
+
+
+def build_graph_layout(rng, kinds, edges, order="safe", style=None, dirs=None, store_p=0.3):
+    """Render a document graph.  Every document i declares type G<i> and
+    element e<i> in namespace g<group(i)>; document 0 is the root WSDL with
+    the service.  order: 'safe' = wsdl:import of schema documents first,
+    'target' = by target index, 'shuffle'."""
+    n = len(kinds)
+    L = Layout("graph")
+    style = style or rng.choice(["abs", "rel", "mixed"])
+    ext = {"W": "wsdl", "X": "xsd"}
+    if dirs is None:
+        dirs = ["/g/"] * n
+    urls = [HOST + dirs[i] + "d%d.%s" % (i, ext[kinds[i]]) for i in range(n)]
+    # include edges put documents into one namespace
+    grp = list(range(n))
+
+    def find(i):
+        while grp[i] != i:
+            i = grp[i]
+        return i
+    for (i, j), k in sorted(edges.items()):
+        if k == "xinc":
+            a, b = find(i), find(j)
+            if a != b:
+                grp[max(a, b)] = min(a, b)
+    ns = ["urn:c12:g%d" % find(i) for i in range(n)]
+    nsdecl = " ".join('xmlns:g%d="urn:c12:g%d"' % (i, i) for i in range(n))
+
+    def decls(i):
+        return ('<xsd:complexType name="G%d"><xsd:sequence><xsd:element name="v" type="xsd:%s"/>'
+                '</xsd:sequence></xsd:complexType><xsd:element name="e%d" type="g%d:G%d"/>'
+                % (i, BUILTINS[i % len(BUILTINS)], i, find(i), i))
+
+    def loc(i, j):
+        st = style if style != "mixed" else rng.choice(["abs", "rel", "dotrel", "rootrel"])
+        return location(rng, urls[i], urls[j], st)
+
+    wrapper = ('<xsd:element name="fReq"><xsd:complexType><xsd:sequence><xsd:element name="a" '
+               'type="xsd:string"/><xsd:element name="g" type="g%d:G0"/></xsd:sequence></xsd:complexType>'
+               '</xsd:element><xsd:element name="fResp"><xsd:complexType><xsd:sequence>'
+               '<xsd:element name="r" type="xsd:int"/></xsd:sequence></xsd:complexType></xsd:element>'
+               % find(0))
+    ops_xml = ('<wsdl:message name="fIn"><wsdl:part name="parameters" element="g%d:fReq"/></wsdl:message>'
+               '<wsdl:message name="fOut"><wsdl:part name="parameters" element="g%d:fResp"/></wsdl:message>'
+               % (find(0), find(0)))
+    ops = [("f", None, None)]
+    foreign = False
+    for i in range(n):
+        out_edges = [(j, k) for (a, j), k in sorted(edges.items()) if a == i]
+        if order == "shuffle":
+            rng.shuffle(out_edges)
+        if kinds[i] == "W":
+            d = WDoc(urls[i])
+            s = SchemaEl(ns[i], "qualified", decls(i) + (wrapper if i == 0 else ""))
+            wimps = [(j, k) for j, k in out_edges if k == "wimp"]
+            if order == "safe":
+                wimps.sort(key=lambda e: (kinds[e[0]] != "X", e[0]))
+            seen_w = False
+            for j, k in wimps:
+                if kinds[j] == "W" and j != i:
+                    seen_w = True
+                if kinds[j] == "X" and seen_w:
+                    foreign = True
+                d.imports.append(loc(i, j))
+            for j, k in out_edges:
+                if k == "ximp":
+                    s.refs.append(("import", ns[j], loc(i, j)))
+                elif k == "xinc":
+                    s.refs.append(("include", loc(i, j)))
+            d.types.append([s])
+            if i == 0:
+                d.body = [ops_xml, pt_xml(ops), bind_xml(ops), SVC_XML]
+            L.docs[urls[i]] = d.render(nsdecl)
+        else:
+            s = SchemaEl(ns[i], "qualified", decls(i))
+            for j, k in out_edges:
+                if k == "ximp":
+                    s.refs.append(("import", ns[j], loc(i, j)))
+                elif k == "xinc":
+                    s.refs.append(("include", loc(i, j)))
+            L.docs[urls[i]] = XDoc(urls[i], s).render(nsdecl)
+    L.root = urls[0]
+    # the single-document equivalent: the declarations of the reachable documents
+    reach = graph_reachable(n, edges)
+    d = WDoc(HOST + "/single.wsdl")
+    by_ns = {}
+    for i in sorted(reach):
+        by_ns.setdefault(ns[i], []).append(i)
+    schemas = []
+    for u in sorted(by_ns):
+        schemas.append(SchemaEl(u, "qualified", "".join(decls(i) + (wrapper if i == 0 else "")
+                                                         for i in by_ns[u])))
+    d.types.append(schemas)
+    d.body = [ops_xml, pt_xml(ops), bind_xml(ops), SVC_XML]
+    L.single = d.render(nsdecl)
+    for u in urls:
+        if rng.random() < store_p:
+            L.in_store.add(u)
+    if w_cycle(kinds, edges):
+        L.quirks.add(KEY_CYCLE_INLINE)
+    if foreign:
+        L.quirks.add(KEY_FOREIGN)
+    if len(set(dirs)) > 1:
+        L.quirks.add(KEY_RELBASE)
+    L.desc = "graph kinds=%s edges=%s order=%s style=%s" % (
+        "".join(kinds), ",".join("%d%s%d" % (i, k[1:], j) for (i, j), k in sorted(edges.items())), order, style)
+    L.shape = {"n": n, "kinds": "".join(kinds), "edges": len(edges), "cycle": w_cycle(kinds, edges)}
+    return L
